@@ -86,14 +86,14 @@ impl Sc {
 
 /// Bytes the kernel charges for one invocation: every string with its
 /// terminator plus one pointer per argv/envp entry.
-fn kernel_cost(argv_lens: impl Iterator<Item = usize>, argc: usize, env: &[(String, String)]) -> usize {
+pub fn kernel_cost(argv_lens: impl Iterator<Item = usize>, argc: usize, env: &[(String, String)]) -> usize {
     let strings: usize = argv_lens.map(|l| l + 1).sum();
     let envs: usize = env.iter().map(|(k, v)| k.len() + v.len() + 2).sum();
     strings + envs + 8 * (argc + env.len()) + "/bin/true".len() + 1
 }
 
 /// The kernel's budget for argv+envp of a child started under `rlimit_stack`.
-fn kernel_budget(rlimit_stack: Option<u64>, default_stack: u64) -> usize {
+pub fn kernel_budget(rlimit_stack: Option<u64>, default_stack: u64) -> usize {
     let rl = rlimit_stack.unwrap_or(default_stack);
     let lim = if rl == u64::MAX { 6 << 20 } else { (rl / 4).min(6 << 20) };
     (lim as usize).max(131072)
